@@ -1659,7 +1659,7 @@ def remove_stns_sinex(sinex, sites):
                     val = '{:21.14e}'.format(float(sub_vcv[str(i)].pop(0)))
                     line += ' ' + str(val)
                 out.write(line + '\n')
-        out.write(block_end)
+        out.write(f"{block_end}\n")
 
         # Write out the trailer line
         out.write('%ENDSNX\n')
@@ -1832,7 +1832,7 @@ def remove_velocity_sinex(sinex):
                         j += 1
                     out.write(" \n")
         # Write out end of block line, and delete large variables
-        out.write(block_end)
+        out.write(f"{block_end}\n")
         del solution_matrix_estimate
         del Q
 
